@@ -12,8 +12,8 @@ VMAX = 50  # symbolic EDB values range over [-VMAX, VMAX] (keeps i64/f64 arithme
 
 TIERS = {
     "quick": {"rows": 2, "rows_flat": 2, "k": 3, "timeout_ms": 10000, "n_seeded": 40, "n_templates": 64, "budget_s": 480},
-    "thorough": {"rows": 3, "rows_flat": 3, "k": 4, "timeout_ms": 120000, "n_seeded": 80, "n_templates": 10 ** 6,
-                 "budget_s": 5400},
+    "thorough": {"rows": 2, "rows_flat": 3, "k": 4, "timeout_ms": 30000, "n_seeded": 100, "n_templates": 10 ** 6,
+                 "budget_s": 2400, "max_rows": 1500},
 }
 
 
@@ -21,6 +21,7 @@ class Run:
     def __init__(self, prop, tier):
         self.prop, self.tier = prop, tier
         self.cfg = TIERS[tier]
+        E.MAX_ROWS = self.cfg.get("max_rows", 700)
         self.stats = P.Stats()
         self.bridge = P.Bridge()
         self.violations, self.known, self.inconclusive = [], [], []
@@ -157,6 +158,7 @@ class Run:
             "budget_exhausted_after_programs": self.budget_hit,
             "bounds": {"rows_per_relation": self.cfg["rows"], "rows_flat": self.cfg["rows_flat"],
                        "fixpoint_rounds": self.cfg["k"], "value_range": [-VMAX, VMAX],
+                       "max_slots_per_table": self.cfg.get("max_rows", 700),
                        "solver_timeout_ms": self.cfg["timeout_ms"]},
             "known_findings_suppressed": self.known,
             "inconclusive": self.inconclusive,
@@ -203,6 +205,10 @@ def corpus(run, kinds, with_templates=False, rec_templates=0):
             step = -(-len(ts) // run.cfg["n_templates"])
             ts = ts[vc.seed() % step::step]
         out.extend((t, "template") for t in ts)
+        st = G.string_templates()
+        if run.tier == "quick":
+            st = st[vc.seed() % 2::2]
+        out.extend((t, "template") for t in st)
     n = run.cfg["n_seeded"]
     tries = made = 0
     while made < n and tries < n * 5:
@@ -671,8 +677,20 @@ def scans_of(ir, acc):
     return acc
 
 
+BASE_RELS = {"a", "b", "c", "d", "e", "s", "t"}
+
+
+def untyped_derived(env_ar):
+    """A plan that scans both a string-typed base relation and a derived relation: the derived relation's column
+    types are not known in free-table mode, so the case is left out (counted)."""
+    return any(r in P.REL_TYPES for r in env_ar) and any(r not in BASE_RELS for r in env_ar)
+
+
 def check_rewrite(run, ir, label, passes, derived):
     env_ar = scans_of(ir, {})
+    if untyped_derived(env_ar):
+        run.stats.note_unsupported("derived relation next to string-typed columns (free-table mode)")
+        return
     n = run.cfg["rows"]
     S.reset()
     tables = {rel: E.sym_table(rel, ar, n) for rel, ar in env_ar.items()}
@@ -816,6 +834,9 @@ def check_share_all(run, irs, heads, label):
     env_ar = {}
     for ir in irs:
         scans_of(ir, env_ar)
+    if untyped_derived(env_ar):
+        run.stats.note_unsupported("derived relation next to string-typed columns (free-table mode)")
+        return
     n = run.cfg["rows"]
     S.reset()
     tables = {rel: E.sym_table(rel, ar, n) for rel, ar in env_ar.items()}
